@@ -300,12 +300,17 @@ fn read_upper_command(cur: &mut SourceCursor, song: &mut Song) -> Token {
     //
     // check variable
     //
+    let word_line = cur.line;
     match check_variables(cur, song, cmd.clone()) {
         Some(res) => return res,
         None => {}
     }
+    // report the line of the word itself (check_variables may have skipped a comment spanning lines)
+    let after_line = cur.line;
+    cur.line = word_line;
     read_error_cmd(cur, song, &cmd);
-    return Token::new_empty(&cmd, cur.line);
+    cur.line = after_line;
+    return Token::new_empty(&cmd, word_line);
 }
 
 fn read_def_user_function(cur: &mut SourceCursor, song: &mut Song) -> Token {
